@@ -6,7 +6,7 @@ id="$1"; dir=/verif/seeded/$id
 prop=${id%-*}
 by=$(python3 -c "import json;print(json.load(open('$dir/meta.json')).get('caught_by','$prop'))")
 cd /verif
-out=$(tools/trymut.sh "$dir/patch.diff" "$by" quick 2>&1)
+out=$(VERIF_EVIDENCE_DIR=/verif/work/evidence-trymut tools/trymut.sh "$dir/patch.diff" "$by" quick 2>&1)
 rc=$(echo "$out" | grep -o "exit=[0-9]*" | tail -1)
 napply=$(echo "$out" | grep -c "PATCH-DOES-NOT-APPLY")
 classes=$(echo "$out" | grep -o "class=[^ ]*" | sort -u | head -6 | tr '\n' ' ')
